@@ -390,6 +390,13 @@ def routed {σ : Type} (P : Program) (infos : List MsgInfo) (env : Env) (auth : 
     (payloadOk : Bool) (T m msg : String) (s : σ) : Res × σ :=
   (routedStage P infos env auth W payloadOk T m msg s).2
 
+/-- a routed message runs on a branch of the state that is written back only on success (baseapp `runMsgs`; the
+governance end-blocker per proposal) -/
+def onBranch {σ : Type} (f : σ → Res × σ) (s : σ) : Res × σ :=
+  match f s with
+  | (.ok, s') => (.ok, s')
+  | (.err, _) => (.err, s)
+
 /-- the registration and method serving a message type: (registered concrete type, method) -/
 def routeOf (svcs : List Service) (regs : List Registration) (msg : String) : Option (String × String) :=
   svcs.findSome? fun sv =>
